@@ -1008,6 +1008,7 @@ def _expand_value_helpers(decls):
 RECORD_FIELDS = {}      # record name -> field names in declaration order (all records of the header that were loaded)
 MEMBER_ALIAS = {}       # (record, member) -> the name its reads are spelt with ('first' / 'second' of a pair-like record)
 PAIR_RECORDS = {}       # record name -> (first field, second field)
+RECORD_METHODS = {}     # (record name, method) -> term of its one return expression over ('mem', ('this',), field), for parameterless methods
 
 
 def _install_member_aliases(decls):
@@ -1018,9 +1019,18 @@ def _install_member_aliases(decls):
     MEMBER_ALIAS.clear()
     PAIR_RECORDS.clear()
     RECORD_FIELDS.clear()
+    RECORD_METHODS.clear()
     for name_, rec_ in decls.items():
         if isinstance(rec_, N) and rec_.kind == 'CXXRecordDecl' and ':' not in name_:
             RECORD_FIELDS[name_] = [k.name for k in rec_.kids if k.kind == 'FieldDecl']
+            for m_ in rec_.kids:
+                if m_.kind == 'CXXMethodDecl' and not [p_ for p_ in m_.kids if p_.kind == 'ParmVarDecl']:
+                    body_ = [c for c in m_.kids if c.kind == 'CompoundStmt']
+                    if len(body_) == 1 and len(body_[0].kids) == 1 and body_[0].kids[0].kind == 'ReturnStmt' and body_[0].kids[0].kids:
+                        try:
+                            RECORD_METHODS[(name_, m_.name)] = term(body_[0].kids[0].kids[0], None)
+                        except Exception:
+                            pass
     for name, rec in decls.items():
         if not isinstance(rec, N) or rec.kind != 'CXXRecordDecl' or ':' in name or name in ('cell_item', 'config', 'combinator_result', 'chart', 'matrix', 'cell'):
             continue
@@ -1396,6 +1406,9 @@ def term(n, env=None, _depth=0):
                         got_ = pair_component(env, i0_, flds_.index(name_), _depth + 1)
                         if got_ is not None:
                             return got_
+                    if i0_.kind == 'InitListExpr' and len(i0_.kids) == 2:
+                        # `const span leaf = {a, b};` never written to afterwards: the field is the value it was given
+                        return term(i0_.kids[flds_.index(name_)], env, _depth + 1)
         fo_ = getattr(env, 'flat_objects', None) if env is not None else None
         if fo_ and base[0] == 'var' and base[1] in fo_ and name_ in fo_[base[1]]:
             return fo_[base[1]][name_]          # a member of a record local that the model reads as the locals it groups
@@ -1428,6 +1441,26 @@ def term(n, env=None, _depth=0):
         return ('idx', T(n.kids[0]), (T(n.kids[1]),))
     if k == 'CXXMemberCallExpr':
         callee = strip(n.kids[0])
+        if env is not None and callee.kids and len(n.kids) == 1 and _depth < 30:
+            # x.end() on a small record local whose method is one `return <expression over its fields>;`
+            b_ = strip(callee.kids[0])
+            if b_.kind == 'DeclRefExpr' and b_.refid in env.decl and b_.refid not in env.mutated:
+                d_ = env.decl[b_.refid]
+                rt_ = (d_.type or '').replace('const ', '').replace('struct ', '').replace('class ', '').strip(' &').split('::')[-1]
+                meth_ = RECORD_METHODS.get((rt_, callee.name))
+                flds_ = RECORD_FIELDS.get(rt_)
+                if meth_ is not None and flds_ and len(flds_) == 2 and d_.kind == 'VarDecl' and rt_ not in ('cell_item', 'config', 'combinator_result', 'chart', 'matrix', 'cell'):
+                    comp_ = {}
+                    for f_ in flds_:
+                        me_ = _blank('MemberExpr', name=f_, arrow=False, line=n.line)
+                        me_.kids = [b_]
+                        t_ = term(me_, env, _depth + 1)
+                        if t_[0] == 'mem' and t_[1] == ('var', d_.name):
+                            comp_ = None
+                            break
+                        comp_[('mem', ('this',), f_)] = t_
+                    if comp_:
+                        return subst(meth_, comp_)
         obj = T(callee.kids[0]) if callee.kids else ('this',)
         if obj[0] in ('addr', 'deref'):
             obj = obj[1]
